@@ -264,11 +264,11 @@ def run_abf(c, tier):
 # Part B: multiple-walker metadynamics
 # ------------------------------------------------------------------------------------------------
 
-def meta_config(rid, registry, freq):
+def meta_config(rid, registry, freq, partial=False):
     return (ctl.cv_d2(LO, HI, 0.5) +
             "metadynamics {\n  name mtd\n  colvars d2\n  hillWeight 0.5\n  newHillFrequency 2\n  hillWidth 2.0\n"
-            "  multipleReplicas on\n  replicaID %s\n  replicasRegistry %s\n  replicaUpdateFrequency %d\n  writePartialFreeEnergyFile off\n}\n"
-            % (rid, registry, freq))
+            "  multipleReplicas on\n  replicaID %s\n  replicasRegistry %s\n  replicaUpdateFrequency %d\n  writePartialFreeEnergyFile %s\n}\n"
+            % (rid, registry, freq, "on" if partial else "off"))
 
 
 def hill_energy(hills, x):
@@ -299,6 +299,9 @@ def run_meta(c, tier):
         os.makedirs(wd)
         registry = os.path.join(wd, "registry.txt")
         walkers = []
+        # some walkers also write the free energy of their own hills alone (writePartialFreeEnergyFile)
+        partial = [(ci % 2 == 1 and (w + ci // 2) % 2 == 0) for w in range(nw)]
+        prefixes = ["out"] * nw
         key = "meta:nw%d:freq%d:%s%s" % (nw, freq, "states" if rfreq < 100000 else "nostates", ":walker_restart_new_prefix" if ci % 3 == 2 else "")
         files = []
         try:
@@ -309,7 +312,7 @@ def run_meta(c, tier):
                 # the output prefix must be relative: replica file names are built as <cwd>/<prefix>...
                 # state files every 6 update periods: in between, peers' hills arrive through the hills files
                 ev = wk.send(hdr + "emit atoms off\nmodule\nprefix out\nrfreq %d\nconfig <<EOC\n%sEOC\ninit\n" % (
-                    rfreq, meta_config("r%d" % w, registry, freq)))
+                    rfreq, meta_config("r%d" % w, registry, freq, partial[w])))
                 cfg = [e for e in ev if e["ev"] == "config"]
                 if cfg and cfg[0]["rc"] != 0:
                     raise RuntimeError("config rejected: %s" % cfg[0]["errs"])
@@ -360,7 +363,8 @@ def run_meta(c, tier):
                     wk = interactive.Walker("plain", sub, log="w%db" % w)
                     hdr = ctl.header("off", extra="dt 1.0\ntemp 300.0\nreplicas %s %d %d 1 0\nkeeplog on" % (wd, w, nw))
                     ev_ = wk.send(hdr + "emit atoms off\nmodule\nprefix out2\nrfreq %d\nconfig <<EOC\n%sEOC\ninprefix out\ninit\n" % (
-                        rfreq, meta_config("r%d" % w, registry, freq)))
+                        rfreq, meta_config("r%d" % w, registry, freq, partial[w])))
+                    prefixes[w] = "out2"
                     cfg = [e for e in ev_ if e["ev"] == "config"]
                     ini = [e for e in ev_ if e["ev"] == "init"]
                     if (cfg and cfg[0]["rc"] != 0) or (ini and (ini[0].get("rc") or ini[0].get("err"))):
@@ -571,6 +575,50 @@ def run_meta(c, tier):
                     c.bump("meta_probes_checked")
                 if not ok:
                     break
+            # (4) the free-energy file a walker writes at the end of its run is that of the bias it applies: on every grid point,
+            #     PMF = max(E) - E with E the walker's total bias energy there (own and peers' hills; E itself was checked in (3)),
+            #     whether or not the walker also writes the free energy of its own hills alone
+            if ok:
+                # hills received last are only tabulated at a later step, and the file holds what is tabulated: every walker first takes
+                # 3 more update periods far outside the grid (the hills deposited there are more than 70 widths away from it)
+                for rep in range(3 * freq + 2):
+                    for w in range(nw):
+                        walkers[w].send(ctl.pos_line(d2=40.0) + "\nstep\nclearerr\n")
+                for w in range(nw):
+                    # (an evaluation may still take in hills that peers published last: evaluate twice, keep the second pass, and only
+                    # then end the run, which writes the file; no walker runs in between)
+                    en = []
+                    for pass_ in range(2):
+                        en = []
+                        for kbin in range(int((HI - LO) / 0.5)):
+                            evq = walkers[w].send(ctl.pos_line(d2=LO + (kbin + 0.5) * 0.5) + "\nevalc\nclearerr\n")
+                            en.append(fl([q for q in evq if q["ev"] == "evalc"][0]["bias"]["mtd"]["e"]))
+                    ev = walkers[w].send("endrun\n")
+                    fn = os.path.join(wd, "w%d" % w, prefixes[w] + ".pmf")
+                    if not os.path.exists(fn):
+                        c.bump("meta_pmf_files_missing")
+                        continue
+                    rows = [(float(l.split()[0]), float(l.split()[1])) for l in open(fn) if l.strip() and not l.startswith("#")]
+                    if len(rows) != len(en) or any(abs(r[0] - (LO + (i + 0.5) * 0.5)) > 1e-9 for i, r in enumerate(rows)):
+                        c.violation("pmf_file:grid_points", "walker %d: %s lists %d points (%s ...), the grid has %d bin centres" % (
+                            w, os.path.basename(fn), len(rows), [r[0] for r in rows[:3]], len(en)), files + [fn])
+                        ok = False
+                        break
+                    emax = max(en)
+                    dev = max(abs((emax - e_) - pv) for e_, (_, pv) in zip(en, rows))
+                    if dev > 1e-9 * max(1.0, emax):
+                        k_ = max(range(len(rows)), key=lambda i: abs((emax - en[i]) - rows[i][1]))
+                        c.violation("pmf_file:" + ("with_partial_file" if partial[w] else "combined_only") + ":nw%d" % nw,
+                                    "walker %d: %s differs from the bias the walker applies: at x=%s the file has %.12g, max(E) - E = %.12g (E = %.12g, "
+                                    "max E = %.12g); largest deviation %.3g over %d grid points; E - (max(file) - file) per point: %s; own hills %s" % (
+                                        w, os.path.basename(fn), rows[k_][0], rows[k_][1], emax - en[k_], en[k_], emax, dev, len(rows),
+                                        ["%.4f" % (en[i] - (max(r[1] for r in rows) - rows[i][1])) for i in range(len(rows))],
+                                        [(round(h[0], 3), st_) for h, st_ in zip(own_hills[w], own_steps[w])][-6:]), files + [fn])
+                        ok = False
+                        break
+                    c.bump("meta_pmf_files_checked")
+                    if partial[w]:
+                        c.bump("meta_pmf_files_checked_with_partial_file")
             if ok:
                 c.bump("meta_hills_exchanged", sum(len(r) for r in received))
                 c.nontrivial("meta|nw%d|freq%d|%d" % (nw, freq, ci))
